@@ -44,135 +44,124 @@ Fixpoint zip_names (fs : list field) (vs : list jv) : list (jv * jv) :=
   | _, _ => []
   end.
 
-(** value in (True, False): 1, 0, 1.0, 0.0, True, False *)
-Definition is_bit (v : jv) : bool :=
-  match v with
-  | JBool _ => true
-  | JInt z => (z =? 0) || (z =? 1)
-  | JFlt (FInt z) => (z =? 0) || (z =? 1)
-  | _ => false
-  end.
+(** value is True or value is False *)
+Definition is_bool (v : jv) : bool := match v with JBool _ => true | _ => false end.
+(** isinstance(value, NON_NUMBER_TYPES): list, dict, str, bytes *)
+Definition is_non_number (v : jv) : bool :=
+  match v with JList _ | JMap _ | JStr _ | JBytes _ _ => true | _ => false end.
+(** isinstance(inst, VALID_NUMBER_SOURCES): int (bool included), float, Decimal, str, bytes *)
+Definition is_number_source (v : jv) : bool := is_number v || is_textlike v.
 
 Definition ret_number_guard (P : dproto) : guard :=
   match P with PJson => g_json_ret_number | PYaml => g_yaml_ret_number | PMsgpack => g_msgpack_ret_number end.
+Definition ret_number_raises (P : dproto) : list (pyexn * text) :=
+  match P with PJson => json_ret_number_raises | PYaml => yaml_ret_number_raises | PMsgpack => msgpack_ret_number_raises end.
 Definition ret_bool_raises (P : dproto) : list (pyexn * text) :=
   match P with PJson => json_ret_bool_raises | PYaml => yaml_ret_bool_raises | PMsgpack => msgpack_ret_bool_raises end.
 
-(** _ret_number(cls, value): anything but a number is refused; without the check the value goes
-    through and the comparison in validate_native raises TypeError (or the user gets it) *)
+(** a float handed to an Integer: an int when integral, refused otherwise (NaN and the infinities
+    are not integral) *)
+Definition integral_float (rs : list (pyexn * text)) (c : fclass) : res lval :=
+  match c with FInt z => Ret (VInt z) | _ => raise_nth 1 rs end.
+
+(** JsonDocument / YamlDocument._ret_number(Integer, value) *)
 Definition ret_number (P : dproto) (v : jv) : res lval :=
-  guard_raise (ret_number_guard P) (negb (is_number v)) (Ret VOpaque)
+  guard_raise (ret_number_guard P) (is_non_number v) (Ret VOpaque)
     (match v with
      | JInt z => Ret (VInt z)
      | JBool b => Ret (VInt (if b then 1 else 0))
+     | JFlt c => match P with
+                 | PMsgpack => Ret VOpaque      (* MessagePackDocument._ret_number (Double only) *)
+                 | _ => integral_float (ret_number_raises P) c
+                 end
      | _ => Ret VOpaque
      end).
-(** _ret_bool(cls, value): if value is None or value in (True, False): return value; raise *)
-Definition ret_bool (P : dproto) (v : jv) : res lval :=
-  if is_bit v then Ret VOpaque else raise_nth 0 (ret_bool_raises P).
-
-(** int(value) inside integer_from_bytes's try, for the values that are not text *)
-Definition int_of_nontext (v : jv) : res lval :=
-  tryS (nth_try 0 integer_from_bytes_tries)
+(** MessagePackDocument.integer_from_bytes for a value that is no str / bytes *)
+Definition msgpack_integer (v : jv) : res lval :=
+  guard_raise g_msgpack_integer_non_number (is_non_number v) (Ret VOpaque)
     (match v with
      | JInt z => Ret (VInt z)
-     | JBool b => Ret (VInt (if b then 1 else 0))
-     | JFlt (FInt z) => Ret (VInt z)
-     | JFlt FFrac => Ret VOpaque                    (* truncation *)
-     | JFlt FNan => Raise EValueError []
-     | JFlt _ => Raise EOverflowError []
-     | _ => Raise ETypeError []
+     | JBool b => Ret (VInt (if b then 1 else 0))       (* a bool is handed through *)
+     | JFlt c => integral_float msgpack_integer_from_bytes_raises c
+     | _ => Ret VOpaque
      end).
-
-(** validate_native(Integer, value) for what the number handlers let through *)
-Definition vnative_number (nillable : bool) (v : jv) : bool :=
-  match v with
-  | JInt _ | JBool _ => true
-  | JFlt (FInt _) => true
-  | JFlt _ => false         (* int(v) == v fails; nan is unordered; the infinities are outside (gt, lt) *)
-  | _ => true
-  end.
+(** _ret_bool(cls, value): if value is None or value is True or value is False: return value; raise *)
+Definition ret_bool (P : dproto) (v : jv) : res lval :=
+  if is_bool v then Ret VOpaque else raise_nth 0 (ret_bool_raises P).
 
 Definition is_dt_kind (k : lkind) : bool :=
   match k with LDateTime | LDate | LTime => true | _ => false end.
+(** issubclass(cls, self.stringified_types) within the universe: DateTime, Date, Time, Duration *)
+Definition is_stringified_kind (k : lkind) : bool :=
+  match k with LDateTime | LDate | LTime | LDur => true | _ => false end.
 Definition is_text_only_kind (k : lkind) : bool :=
   match k with LDateTime | LDate | LTime | LDur | LBytes => true | _ => false end.
-Definition is_regex_kind (k : lkind) : bool :=
-  match k with LDateTime | LDate | LTime | LDur => true | _ => false end.
+Definition is_number_kind (k : lkind) : bool := match k with LInt _ => true | _ => false end.
 
 Section DictDeser.
   Variable P : dproto.
   Variable soft : bool.
   Variable A : app.
 
-  (** the leaf branch of _from_dict_value for a member of primitive kind k; [attr] = the member
-      is an XmlAttribute(Integer) (read through from_bytes) *)
-  Definition leaf_from_dict_value (k : lkind) (nillable : bool) (attr : bool) (inst : jv) : res unit :=
+  (** the leaf branch of _from_dict_value for a member of primitive kind k (an XmlAttribute(T)
+      member is read as a plain member of type T) *)
+  Definition leaf_from_dict_value (k : lkind) (nillable : bool) (inst : jv) : res unit :=
     (* validate(key, cls, inst) *)
     let! _ :=
       if soft then
-        let! _ := match inst with
-                  | JNull => if nillable then Ret tt
-                             else match k with
-                                  | LText => if attr then Ret tt else guard_raise g_hier_validate_unicode true (Ret tt) (Ret tt)
-                                  | _ => Ret tt end
-                  | _ => match k with
-                         | LText => if attr then Ret tt
-                                    else guard_raise g_hier_validate_unicode (negb (is_textlike inst)) (Ret tt) (Ret tt)
-                         | _ => Ret tt end
-                  end in
+        let! _ :=
+          match inst with
+          | JNull => if nillable then Ret tt
+                     else match k with
+                          | LText => guard_raise g_hier_validate_unicode true (Ret tt) (Ret tt)
+                          | _ => Ret tt end
+          | _ =>
+              match k with
+              | LText => guard_raise g_hier_validate_unicode (negb (is_textlike inst)) (Ret tt) (Ret tt)
+              | _ => guard_raise g_hier_validate_stringified
+                       (is_stringified_kind k && negb (is_textlike inst)) (Ret tt) (Ret tt)
+              end
+          end in
         match P with
         | PJson =>
-            if attr then Ret tt else
             guard_raise g_json_validate_dt
-              (is_dt_kind k && negb (match inst with JStr s => vstring k nillable (Some s) | _ => false end))
+              (match inst with
+               | JNull => false
+               | JStr s => is_dt_kind k && negb (vstring k nillable (Some s))
+               | _ => is_dt_kind k
+               end)
               (Ret tt) (Ret tt)
         | _ => Ret tt
         end
       else Ret tt in
-    if attr then
-      (* from_unicode(XmlAttribute, inst) -> xmlattribute_from_bytes -> from_bytes(Integer, inst) *)
-      let msl := match k with LInt m => m | _ => PosInf end in
-      match inst with
-      | JNull => if soft && negb nillable then raise_nth 3 hier_from_dict_value_raises else Ret tt
-      | JStr s => let! _ := read_int msl s in Ret tt
-      | JBytes b _ => let! _ := read_int msl b in Ret tt
-      | _ =>
-          match P with
-          | PMsgpack => let! _ := ret_number P inst in Ret tt
-          | _ => let! _ := int_of_nontext inst in Ret tt
-          end
-      end
-    else
     (* a value of a type that travels as text must arrive as text *)
     guard_raise g_hier_text_only
       (match inst with JNull => false | _ => negb (is_textlike inst) && is_text_only_kind k end)
       (match k with LBytes => Raise EAttributeError [] | _ => Raise ETypeError [] end)
-      (* a binary string is decoded before the text patterns are applied *)
+    (* a number arrives as a number or as its text *)
+    (guard_raise g_hier_number_sources
+      (match inst with JNull => false | _ => is_number_kind k && negb (is_number_source inst) end)
+      (Raise ETypeError [])
+      (* text that arrived as a byte string is decoded and then read like any other text *)
       (let! inst :=
          match inst with
          | JBytes b dec =>
-             if is_regex_kind k then
-               tryS (nth_try 0 hier_from_dict_value_tries)
-                    (match dec with Some s => Ret (JStr s) | None => Raise EUnicodeDecodeError [] end)
-             else Ret inst
+             match k with
+             | LBytes => Ret inst
+             | _ => tryS (nth_try 0 hier_from_dict_value_tries)
+                         (match dec with Some s => Ret (JStr s) | None => Raise EUnicodeDecodeError [] end)
+             end
          | _ => Ret inst
          end in
        if soft && negb (match inst with JStr s => vstring k nillable (Some s) | _ => true end)
-       then raise_nth 2 hier_from_dict_value_raises
+       then raise_nth 3 hier_from_dict_value_raises
        else
          let! ok :=
            match inst with
            | JNull => Ret nillable            (* from_unicode(cls, None) = None; validate_native(None) *)
            | _ =>
              match k with
-             | LText =>
-                 match inst with
-                 | JBytes _ dec =>
-                     tryS (nth_try 0 unicode_from_bytes_tries)
-                          (match dec with Some _ => Ret true | None => Raise EUnicodeDecodeError [] end)
-                 | _ => Ret true
-                 end
+             | LText => Ret true
              | LBytes =>
                  (* from_serstr(cls, inst, self.binary_encoding): base64 for Json and Yaml; None for
                     MessagePackDocument, whose decoding handler is the identity *)
@@ -185,8 +174,8 @@ Section DictDeser.
              | LInt msl =>
                  match P, inst with
                  | PMsgpack, JStr s => let! _ := read_int msl s in Ret true
-                 | PMsgpack, JBytes b _ => let! _ := read_int msl b in Ret true
-                 | _, _ => let! _ := ret_number P inst in Ret (vnative_number nillable inst)
+                 | PMsgpack, _ => let! _ := msgpack_integer inst in Ret true
+                 | _, _ => let! _ := ret_number P inst in Ret true
                  end
              | LBool => let! _ := ret_bool P inst in Ret true
              | LEnum vals =>
@@ -203,21 +192,16 @@ Section DictDeser.
                  end
              end
            end in
-         if soft && negb ok then raise_nth 3 hier_from_dict_value_raises else Ret tt).
+         if soft && negb ok then raise_nth 5 hier_from_dict_value_raises else Ret tt)).
 
-  (** _check_freq_dict *)
+  (** _check_freq_dict (flat=False): every member, arrays included, by its own occurrence bounds *)
   Fixpoint check_freq (fs : list field) (seen : list text) : res unit :=
     match fs with
     | [] => Ret tt
     | f :: r =>
         let n := count_text (f_name f) seen in
-        (* an Array member with max_occurs == 1 is judged by the attributes of its element type:
-           min_occurs 0, unbounded *)
-        let '(mn, mx) := match f_ty f with
-                         | TArr _ _ => if ext_eqb (f_max f) (Fin 1) then (0, PosInf) else (f_min f, f_max f)
-                         | _ => (f_min f, f_max f) end in
-        if n <? mn then raise_nth 0 dict_check_freq_raises
-        else if negb (ext_leb (Fin n) mx) then raise_nth 1 dict_check_freq_raises
+        if n <? f_min f then raise_nth 0 dict_check_freq_raises
+        else if negb (ext_leb (Fin n) (f_max f)) then raise_nth 1 dict_check_freq_raises
         else check_freq r seen
     end.
 
@@ -240,26 +224,35 @@ Section DictDeser.
     Variable rec : ty -> jv -> res unit.      (* _doc_to_object on a member *)
 
     (** _from_dict_value(ctx, key, cls, inst, validator) *)
-    Definition from_dict_value (t : ty) (nillable : bool) (attr : bool) (inst : jv) : res unit :=
+    Definition from_dict_value (t : ty) (nillable : bool) (inst : jv) : res unit :=
       match t with
-      | TLeaf k => leaf_from_dict_value k nillable attr inst
-      | _ => rec t inst        (* validate() does nothing for a complex type; then _doc_to_object *)
+      | TLeaf k => leaf_from_dict_value k nillable inst
+      | _ =>
+          (* validate() does nothing for a complex type.  A null member is None (whether that is
+             acceptable is up to validate_native); anything else goes to _doc_to_object *)
+          match inst with
+          | JNull =>
+              guard_skip g_hier_null_member true
+                (if soft && negb nillable then raise_nth 5 hier_from_dict_value_raises else Ret tt)
+                (rec t inst) (rec t inst)
+          | _ => rec t inst
+          end
       end.
 
     (** the Array branch: for i, child in enumerate(doc) *)
     Fixpoint array_items (elt : ty) (l : list jv) : res unit :=
       match l with
       | [] => Ret tt
-      | x :: r => let! _ := from_dict_value elt true false x in array_items elt r
+      | x :: r => let! _ := from_dict_value elt true x in array_items elt r
       end.
 
     (** for a in v: subinst.append(_from_dict_value(...)); frequencies[k] += 1 *)
-    Fixpoint repeated_items (key : text) (f : field) (attr : bool) (l : list jv) : res (list text) :=
+    Fixpoint repeated_items (key : text) (f : field) (l : list jv) : res (list text) :=
       match l with
       | [] => Ret []
       | a :: ar =>
-          let! _ := from_dict_value (f_ty f) (f_nillable f) attr a in
-          let! names := repeated_items key f attr ar in Ret (key :: names)
+          let! _ := from_dict_value (f_ty f) (f_nillable f) a in
+          let! names := repeated_items key f ar in Ret (key :: names)
       end.
 
     (** for k, v in items: the names counted in [frequencies] *)
@@ -274,16 +267,15 @@ Section DictDeser.
               match find_field key fs with
               | None => member_items fs r
               | Some f =>
-                  let attr := match f_kind f with KAttr => true | KElem => false end in
                   if is_multi (f_max f) then
                     match iterate v with
                     | None => guard_raise g_hier_repeated_iterable true (Raise ETypeError []) (Ret [])
                     | Some vs =>
-                        let! n := repeated_items key f attr vs in
+                        let! n := repeated_items key f vs in
                         let! names := member_items fs r in Ret (n ++ names)
                     end
                   else
-                    let! _ := from_dict_value (f_ty f) (f_nillable f) attr v in
+                    let! _ := from_dict_value (f_ty f) (f_nillable f) v in
                     let! names := member_items fs r in Ret (key :: names)
               end
           end
